@@ -939,15 +939,9 @@ end
 -- @param y Number of bits to rotate.
 function bint.brol(x, y)
   x, y = bint_assert_convert(x), bint_assert_tointeger(y)
-  if y > 0 then
+  y = y % BINT_BITS -- rotating is periodic, a negative count rotates to the right
+  if y ~= 0 then
     return (x << y) | (x >> (BINT_BITS - y))
-  elseif y < 0 then
-    if y ~= math_mininteger then
-      return x:bror(-y)
-    else
-      x:bror(-(y+1))
-      x:bror(1)
-    end
   end
   return x
 end
@@ -957,15 +951,9 @@ end
 -- @param y Number of bits to rotate.
 function bint.bror(x, y)
   x, y = bint_assert_convert(x), bint_assert_tointeger(y)
-  if y > 0 then
+  y = y % BINT_BITS -- rotating is periodic, a negative count rotates to the left
+  if y ~= 0 then
     return (x >> y) | (x << (BINT_BITS - y))
-  elseif y < 0 then
-    if y ~= math_mininteger then
-      return x:brol(-y)
-    else
-      x:brol(-(y+1))
-      x:brol(1)
-    end
   end
   return x
 end
